@@ -1,4 +1,5 @@
 import Ufw.Props.C17
+import Ufw.Tie.Misc
 #print axioms Ufw.Props.C17.get_chunk_exact
 #print axioms Ufw.Props.C17.get_chunk_refuses
 #print axioms Ufw.Props.C17.get_atmost_le
@@ -13,3 +14,6 @@ import Ufw.Props.C17
 #print axioms Ufw.Props.C17.sts_n_aux_spec
 #print axioms Ufw.Props.C17.sts_drain_aux_spec
 #print axioms Ufw.Props.C17.aux_write_frame
+#print axioms Ufw.Tie.Misc.const_ssize_max
+#print axioms Ufw.Tie.Misc.const_crc_initial
+#print axioms Ufw.Tie.Misc.const_lenp_kinds
